@@ -7,6 +7,7 @@ extra = sys.argv[1:]  # e.g. --no-bounded
 only = [a for a in extra if not a.startswith("--")]
 flags = [a for a in extra if a.startswith("--")]
 rows = []
+SUFFIX = f"_seed{os.getpid()}"  # (several matrices may run side by side)
 for sid in sorted(os.listdir(SEEDS)):
     if only and not any(o in sid for o in only):
         continue
@@ -20,7 +21,7 @@ for sid in sorted(os.listdir(SEEDS)):
             rows.append((sid, prop, "patch failed", ""))
             continue
         t0 = time.time()
-        p = subprocess.run([os.path.join(HERE, "check"), prop, "--tier", "quick"] + flags, env=dict(os.environ, VERIF_REPO=d, VERIF_NO_EVIDENCE="1", VERIF_OUT_SUFFIX="_seed"), capture_output=True, text=True, timeout=1800)
+        p = subprocess.run([os.path.join(HERE, "check"), prop, "--tier", "quick"] + flags, env=dict(os.environ, VERIF_REPO=d, VERIF_NO_EVIDENCE="1", VERIF_OUT_SUFFIX=SUFFIX), capture_output=True, text=True, timeout=1800)
         out = p.stdout
         first = ""
         lines = out.splitlines()
@@ -36,3 +37,5 @@ for sid in sorted(os.listdir(SEEDS)):
         print(*rows[-1], sep=" | ", flush=True)
     finally:
         shutil.rmtree(d, ignore_errors=True)
+        for tier in ("quick", "thorough"):
+            shutil.rmtree(os.path.join(HERE, "out", f"{prop}_{tier}{SUFFIX}"), ignore_errors=True)
